@@ -85,6 +85,8 @@ def _gen_span(rng):
     ts = [state('TS%d' % i, 1) if rng.random() < 0.6 else None for i in range(n)]
     return {'kind': 'span', 'species': species, 'states': states, 'ts': ts,
             'cond': {'T': round(rng.uniform(300, 2500), 2), 'P': S.logu(rng, 1e-2, 1e1, 4)},
+            # the same objects are evaluated again at other conditions (stale caches, state kept between calls)
+            'cond2': {'T': round(rng.uniform(300, 2500), 2), 'P': S.logu(rng, 1e-2, 1e1, 4)},
             'units': rng.choice(UNITS)}
 
 
@@ -165,6 +167,17 @@ def _diagram(spec, ctx):
         want = np.array([[own(i, {xn: x}) for x in xv] for i in range(len(rxns))])
         ctx.close('D1', G, want, 1e-12, dict(mech, what='values'))
         _stable(ctx, mech, np.asarray(stable), want, (len(xv),))
+        # same object, same scan, other fixed conditions: nothing may be remembered from the first call
+        if 'T' in fixed:
+            fixed2 = dict(fixed, T=fixed['T'] * 1.37)
+            res2 = ctx.call('D1', dict(mech, step='get_GoRT_1D', call='repeat'), pdg.get_GoRT_1D, x_name=xn,
+                            x_values=list(xv), G_units=units, **fixed2)
+            if res2 is not core.NOVALUE:
+                fixed_saved = dict(fixed)
+                fixed.clear(); fixed.update(fixed2)
+                want2 = np.array([[own(i, {xn: x}) for x in xv] for i in range(len(rxns))])
+                fixed.clear(); fixed.update(fixed_saved)
+                ctx.close('D1', np.asarray(res2[0]), want2, 1e-12, dict(mech, what='values', call='repeat'))
     else:
         (n1, v1), (n2, v2) = axes
         res = ctx.call('D1', dict(mech, step='get_GoRT_2D'), pdg.get_GoRT_2D, x1_name=n1, x1_values=list(v1),
@@ -223,48 +236,56 @@ def _span(spec, ctx):
     states, ts = spec['states'], spec['ts']
     rx_specs = [{'reactants': states[i], 'products': states[i + 1], 'ts': ts[i]} for i in range(len(ts))]
     rxns, objs = _build_rxns(spec, rx_specs)
-    cond, units = spec['cond'], spec['units']
-    RT = c.R('%s/K' % units) * cond['T']
-
-    def G(side):
-        tot, _ = RG.state_sum(objs, side, 'get_GoRT', cond)
-        return tot * RT
+    units = spec['units']
+    reactions_obj = Reactions(reactions=rxns)
+    try:
+        from pmutt.reaction.network import Network, state_to_set
+    except Exception:
+        Network = None
+    net = None
+    if Network is not None:
+        net = ctx.call('D3', {'api': 'Network', 'step': 'construct'}, Network, reactions=rxns)
+        if net is core.NOVALUE:
+            net = None
     path = [states[0]]
     for i in range(len(ts)):
         if ts[i]:
             path.append(ts[i])
         path.append(states[i + 1])
-    Gs = [G(s) for s in path]
-    imax, imin = int(np.argmax(Gs)), int(np.argmin(Gs))
-    want = Gs[imax] - Gs[imin]
-    before = imax < imin
-    if before:
-        want += Gs[-1] - Gs[0]
-        ctx.nontrivial()
-    ctx.cls('span:max_before_min' if before else 'span:max_after_min')
-    if any(ts):
-        ctx.cls('span:with_ts')
-    mech = {'branch': 'max_before_min' if before else 'max_after_min', 'has_ts': any(bool(t) for t in ts)}
-    scale = max(1.0, max(abs(g) for g in Gs))
-    got = ctx.call('D3', dict(mech, api='Reactions'), Reactions(reactions=rxns).get_E_span, units=units, **cond)
-    if got is not core.NOVALUE:
-        ctx.close('D3', float(np.squeeze(got)), want, 1e-10, dict(mech, api='Reactions'), scale=scale, states_G=Gs)
-    # Network: same pathway given as a node path
-    try:
-        from pmutt.reaction.network import Network, state_to_set
-    except Exception:
-        return
-    net = ctx.call('D3', dict(mech, api='Network', step='construct'), Network, reactions=rxns)
-    if net is core.NOVALUE:
-        return
-    ctx.cls('span:network')
-    node_path = [state_to_set([objs[n] for n, _ in s], [v for _, v in s]) for s in path]
-    for u in (units, None):
-        got = ctx.call('D3', dict(mech, api='Network', units=bool(u)), net.get_E_span, path=node_path, units=u, **cond)
+    node_path = None
+    if net is not None:
+        ctx.cls('span:network')
+        node_path = [state_to_set([objs[n] for n, _ in s], [v for _, v in s]) for s in path]
+    for call_no, cond in enumerate([spec['cond'], spec.get('cond2') or spec['cond']]):
+        RT = c.R('%s/K' % units) * cond['T']
+
+        def G(side):
+            tot, _ = RG.state_sum(objs, side, 'get_GoRT', cond)
+            return tot * RT
+        Gs = [G(s) for s in path]
+        imax, imin = int(np.argmax(Gs)), int(np.argmin(Gs))
+        want = Gs[imax] - Gs[imin]
+        before = imax < imin
+        if before:
+            want += Gs[-1] - Gs[0]
+            ctx.nontrivial()
+        ctx.cls('span:max_before_min' if before else 'span:max_after_min')
+        if any(ts):
+            ctx.cls('span:with_ts')
+        mech = {'branch': 'max_before_min' if before else 'max_after_min', 'has_ts': any(bool(t) for t in ts),
+                'call': 'first' if call_no == 0 else 'repeat_other_conditions'}
+        scale = max(1.0, max(abs(g) for g in Gs))
+        got = ctx.call('D3', dict(mech, api='Reactions'), reactions_obj.get_E_span, units=units, **cond)
         if got is not core.NOVALUE:
-            w = want if u else want / RT
-            ctx.close('D3', float(np.squeeze(got)), w, 1e-10, dict(mech, api='Network', units=bool(u)),
-                      scale=scale if u else scale / RT)
+            ctx.close('D3', float(np.squeeze(got)), want, 1e-10, dict(mech, api='Reactions'), scale=scale, states_G=Gs)
+        if net is None:
+            continue
+        for u in (units, None):
+            got = ctx.call('D3', dict(mech, api='Network', units=bool(u)), net.get_E_span, path=node_path, units=u, **cond)
+            if got is not core.NOVALUE:
+                w = want if u else want / RT
+                ctx.close('D3', float(np.squeeze(got)), w, 1e-10, dict(mech, api='Network', units=bool(u)),
+                          scale=scale if u else scale / RT)
 
 
 def run_case(spec, ctx):
